@@ -580,3 +580,71 @@ func localAddr(v ssa.Value) bool {
 	}
 	return false
 }
+
+// nonNilGlobals: package-level variables of the module that only ever hold a fresh error/allocation: every store to them
+// (package initialisers included) stores the result of errors.New / fmt.Errorf / a composite allocation, and their
+// address is used for nothing but loads and those stores.
+var nonNilGlobals map[*ssa.Global]bool
+
+func computeNonNilGlobals(p *Prog) {
+	nonNilGlobals = map[*ssa.Global]bool{}
+	stores := map[*ssa.Global]int{}
+	bad := map[*ssa.Global]bool{}
+	for f := range p.Fns {
+		if pp := FnPkgPath(f); pp != Module && !strings.HasPrefix(pp, Module+"/") {
+			continue
+		}
+		for _, b := range f.Blocks {
+			for _, in := range b.Instrs {
+				for _, op := range in.Operands(nil) {
+					if op == nil || *op == nil {
+						continue
+					}
+					g, ok := (*op).(*ssa.Global)
+					if !ok {
+						continue
+					}
+					switch x := in.(type) {
+					case *ssa.UnOp:
+						if x.Op == token.MUL {
+							continue
+						}
+						bad[g] = true
+					case *ssa.Store:
+						if x.Addr != ssa.Value(g) {
+							bad[g] = true
+							continue
+						}
+						fresh := false
+						switch v := x.Val.(type) {
+						case *ssa.Call:
+							n := CalleeName(v)
+							fresh = n == "errors.New" || n == "fmt.Errorf"
+						case *ssa.MakeInterface:
+							if c, ok := v.X.(*ssa.Call); ok {
+								n := CalleeName(c)
+								fresh = n == "errors.New" || n == "fmt.Errorf"
+							} else if _, ok := v.X.(*ssa.Alloc); ok {
+								fresh = true
+							}
+						case *ssa.Alloc:
+							fresh = true
+						}
+						if fresh {
+							stores[g]++
+						} else {
+							bad[g] = true
+						}
+					default:
+						bad[g] = true
+					}
+				}
+			}
+		}
+	}
+	for g, n := range stores {
+		if n > 0 && !bad[g] && g.Pkg != nil && strings.HasPrefix(g.Pkg.Pkg.Path(), Module) {
+			nonNilGlobals[g] = true
+		}
+	}
+}
